@@ -151,6 +151,9 @@ func (p *Poly) IsConst() (*big.Rat, bool) {
 func (p *Poly) Equal(q *Poly) bool { return p.Sub(q).IsZero() }
 
 func (p *Poly) String() string {
+	if p == nil {
+		return "<no normal form>"
+	}
 	if len(p.terms) == 0 {
 		return "0"
 	}
@@ -232,7 +235,12 @@ func (a Rat) Sub(b Rat) Rat {
 func (a Rat) Mul(b Rat) Rat    { return Rat{a.Num.Mul(b.Num), a.Den.Mul(b.Den)}.reduce() }
 func (a Rat) Div(b Rat) Rat    { return Rat{a.Num.Mul(b.Den), a.Den.Mul(b.Num)}.reduce() }
 func (a Rat) Neg() Rat         { return Rat{a.Num.Neg(), a.Den} }
-func (a Rat) Equal(b Rat) bool { return a.Num.Mul(b.Den).Equal(b.Num.Mul(a.Den)) }
+func (a Rat) Equal(b Rat) bool {
+	if a.Num == nil || a.Den == nil || b.Num == nil || b.Den == nil {
+		return false
+	}
+	return a.Num.Mul(b.Den).Equal(b.Num.Mul(a.Den))
+}
 func (a Rat) IsZero() bool     { return a.Num.IsZero() }
 
 // reduce performs cheap simplifications: equal numerator and denominator
@@ -282,6 +290,9 @@ func (a Rat) reduce() Rat {
 }
 
 func (a Rat) String() string {
+	if a.Num == nil || a.Den == nil {
+		return "<no normal form>"
+	}
 	if c, ok := a.Den.IsConst(); ok && c.Cmp(big.NewRat(1, 1)) == 0 {
 		return a.Num.String()
 	}
